@@ -465,19 +465,18 @@ pub open spec fn carries(step: RunStep, from: RunStep) -> bool {
                     lemma_integer_head(&**head, 4u8);
                     lemma_integer_head(&**head, 5u8);
                     lemma_integer_head(&**head, 6u8);
-                    if sproper_r(&**tail) is None { lemma_strict_at(tvr(&**head), held_r(&**tail), held_r(&**tail).len() - 1); }
-                }
-            }
-//@ before stmt @<if wanted_args != -1 && l.len() as i32 != wanted_args {>@
-                    proof {
-                        if claimable(*step_) {
-                            let hd = held_r(&**tail);
-                            assert(hd.len() == l@.len());
-                            if l@.len() == 1 { assert(hd =~= seq![Some(tv(l@[0]))]); axiom_first_rest(Some(tv(l@[0]))); }
-                            if l@.len() == 2 { assert(hd =~= ops2(Some(tv(l@[0])), Some(tv(l@[1])))); }
-                            if l@.len() == 3 { assert(hd =~= ops3(Some(tv(l@[0])), Some(tv(l@[1])), Some(tv(l@[2])))); }
+                    let hd = held_r(&**tail);
+                    match sproper_r(&**tail) {
+                        None => { lemma_strict_at(tvr(&**head), hd, hd.len() - 1); }
+                        Some(x) => {
+                            assert(hd.len() == x.len());
+                            if x.len() == 1 { assert(hd =~= seq![Some(tv(x[0]))]); axiom_first_rest(Some(tv(x[0]))); }
+                            if x.len() == 2 { assert(hd =~= ops2(Some(tv(x[0])), Some(tv(x[1])))); }
+                            if x.len() == 3 { assert(hd =~= ops3(Some(tv(x[0])), Some(tv(x[1])), Some(tv(x[2])))); }
                         }
                     }
+                }
+            }
 //@ after stmt @<step = RunStep::Done(outcome.loc(), Rc::new(outcome));>@
                         proof { assert(claimable(*step_) ==> carries(step, *step_)); }
 //@ after #3 stmt @<step = RunStep::Step(>@
